@@ -44,12 +44,12 @@ func defaultCfg(spec *HarnessSpec, tier string) *Config {
 	cfg := &Config{
 		Harness:      spec.Fn,
 		Timeout:      time.Duration(spec.TimeoutS) * time.Second,
-		QueryTimeout: 10000,
+		QueryTimeout: 5000,
 		MaxSteps:     spec.MaxSteps,
 		MaxSymIndex:  4096,
 		OpaqueDiv:    spec.Opaque,
 		Workers:      runtime.NumCPU(),
-		SolverKind:   "z3",
+		SolverKind:   "z3-new",
 		MaxViol:      3,
 		SwitchBudget: spec.Switches,
 	}
@@ -57,7 +57,7 @@ func defaultCfg(spec *HarnessSpec, tier string) *Config {
 		cfg.Timeout = 120 * time.Second
 	}
 	if tier == "thorough" {
-		cfg.QueryTimeout = 60000
+		cfg.QueryTimeout = 30000
 	}
 	if cfg.MaxSteps == 0 {
 		cfg.MaxSteps = 20_000_000
@@ -77,7 +77,7 @@ func cmdRun(args []string) {
 	timeout := fs.Duration("timeout", 0, "wall budget")
 	workers := fs.Int("workers", 0, "workers")
 	verbose := fs.Bool("v", false, "verbose")
-	solver := fs.String("solver", "z3", "z3|z3-new|cvc5")
+	solver := fs.String("solver", "z3-new", "z3|z3-new|cvc5")
 	maxPaths := fs.Int64("maxpaths", 0, "stop after N paths")
 	replay := fs.Bool("replay", true, "natively replay witnesses")
 	fs.Parse(args)
